@@ -58,8 +58,11 @@ class TwinRunner(program.ProgramRunner):
         self.outcomes = []
         self.dumps = []
 
-    def run_twin(self, prog):
+    def run_twin(self, prog, decisions=None):
         for i, step in enumerate(prog):
+            self.forced = None
+            if decisions is not None and step[0] in ('link', 'unlink') and i < len(decisions):
+                self.forced = 'skip' if decisions[i] == 'skip' else 'do'
             if step[0] == 'bad_dup':
                 # malformed stream: a second object with an existing primary key
                 _, cname, pk = step
@@ -113,11 +116,17 @@ class TwinRunner(program.ProgramRunner):
         return {'exc': type(e).__name__, 'in_continuum': inc, 'msg': str(e)[:200]}
 
 
-def run_one(case, versioned):
-    env = envs.Env(case['spec'], versioned=versioned, autoflush=bool(case.get('autoflush')))
+def run_one(case, versioned, decisions=None, active_history=False):
+    env = envs.Env(case['spec'], versioned=versioned, autoflush=bool(case.get('autoflush')), join_mode=case.get('join_mode'))
     try:
+        if active_history:
+            # what builder.enable_active_history does, without anything else of continuum
+            for cname, cls in env.classes.items():
+                if envs.is_versioned_class(case['spec'], cname):
+                    for prop in sa.inspect(cls).iterate_properties:
+                        getattr(cls, prop.key).impl.active_history = True
         r = TwinRunner(env)
-        outcomes, dumps = r.run_twin(case['program'])
+        outcomes, dumps = r.run_twin(case['program'], decisions)
         extra = None
         if versioned:
             extra = after_remove(env, r, case)
@@ -198,8 +207,6 @@ class C07(Prop):
     def gen(self, rng, tier):
         for _ in range(self.counts(tier)):
             spec = proggen.random_spec(rng)
-            if spec['shape'] in ('joined', 'joined3', 'single') and 'null_delete' in spec['plugins']:
-                spec['plugins'] = [p for p in spec['plugins'] if p != 'null_delete']     # open finding F-NULLDISC
             n = rng.choice((8, 15, 25, 40)) if tier == 'quick' else rng.choice((10, 20, 40, 60))
             prog = proggen.random_program(rng, spec, n)
             info = proggen.entity_info(spec)
@@ -221,7 +228,11 @@ class C07(Prop):
                 prog = prog[:-1] + [['add', 'Article', [3], {'name': 1}], ['add', 'Tag', [3], {'name': 1}], ['commit'],
                                     ['link', 'Article', [3], 'tags', 'Tag', [3]], ['flush'],
                                     ['unlink', 'Article', [3], 'tags', 'Tag', [3]], ['commit']]
-            yield {'spec': spec, 'autoflush': rng.random() < 0.4, 'program': prog}
+            autoflush = rng.random() < 0.4
+            case = {'spec': spec, 'autoflush': autoflush, 'program': prog}
+            if rng.random() < 0.1:
+                case['join_mode'] = 'create_savepoint'     # session joined into an external transaction
+            yield case
         for c in self.gen_m2m_family(rng, 30 if tier == 'quick' else 1000):
             yield c
 
@@ -247,10 +258,31 @@ class C07(Prop):
                 prog.append(['commit'])
             yield {'spec': spec, 'autoflush': False, 'program': prog, 'family': 'm2m_relink'}
 
+    def signature(self, case, obs, violation):
+        # Root-cause discrimination for the open finding F-AH: continuum switches `active_history` on for
+        # every attribute of a versioned class (builder.enable_active_history).  A third run - NO continuum,
+        # but active_history switched on for the same attributes - tells whether a divergence is exactly
+        # that: if it behaves like the versioned run up to and including the diverging step, the difference
+        # between the twins is attributable to active_history and to nothing else continuum does.
+        if violation['clause'] in ('C07.application_tables_differ', 'C07.outcome_differs'):
+            step = violation['detail']['step']
+            v, h = obs['versioned'], obs.get('plain_ah')
+            if h is not None:
+                key = lambda o: o['exc'] if isinstance(o, dict) else 'ok'
+                same = all(key(a) == key(b) for a, b in zip(v['outcomes'][:step + 1], h['outcomes'][:step + 1]))
+                ends = [i for i in range(step + 1) if case['program'][i][0] in ('commit', 'rollback')]
+                same = same and all(v['dumps'][i] == h['dumps'][i] for i in ends)
+                if same:
+                    return 'C07.differs_like_plain_active_history'
+        return violation['clause']
+
     def run_case(self, case):
         v = run_one(case, True)
-        u = run_one(case, False)
-        return {'versioned': v, 'plain': u}
+        # the twin performs the same link / unlink operations the versioned run performed
+        dec = [o if isinstance(o, str) else 'exc' for o in v['outcomes']]
+        u = run_one(case, False, dec)
+        h = run_one(case, False, dec, active_history=True)
+        return {'versioned': v, 'plain': u, 'plain_ah': h}
 
     def lean_lines(self, case, obs):
         return []
